@@ -81,6 +81,15 @@ def reused_receiver_cases(rng, count):
 
 def gen(rng, tier):
     n = 1 if tier == "quick" else 12
+    for nd in ([45000, 130000] if tier == "quick" else [43000, 45000, 90000, 130000, 200000]):
+        v = int("".join(rng.choice("123456789") for _ in range(60)) + "0" * (nd - 120) + "".join(rng.choice("123456789") for _ in range(60)))
+        yield dict(family="setint-huge", vars=[zero(0, prec=rng.choice([0, 34]), mode=rng.randint(0, 5))], ops=["SetInt 0 %d" % (v * rng.choice([1, -1])), "MinPrec 0"], big=True)
+    for _ in range(120 * n):
+        ip = rng.choice([1, 7, 2**63 - 1, 2**63, 2**64 - 1, 10**19, common.rand_coeff(rng, 19)])
+        k = rng.choice([38, 56, 57, 58, 60, 76, 80])
+        c = ip * 10 ** k + rng.choice([1, 1, 5, 10 ** rng.randint(0, 10)])
+        x = fin(c, -k, neg=rng.randint(0, 1))
+        yield dict(family="getters-deep-fraction", vars=[x], ops=["Int64 0", "Uint64 0", "Int 0", "IsInt 0", "MinPrec 0"])
     for c in reused_receiver_cases(rng, 150 * n):
         yield c
     for c in setrat_cases(rng, 200 * n):
